@@ -141,6 +141,7 @@ Section P.
     sf_out_nonneg : 0 <= sr_out r;
     sf_after_nonneg : 0 <= st_after_fees t;
     sf_fpool_nonneg : 0 <= f_pool (sr_fees r);
+    sf_recv_nonneg : 0 <= f_receiver (sr_fees r);
     sf_fee_split : st_after_fees t + f_receiver (sr_fees r) + f_pool (sr_fees r) = amount;
     sf_tin_nonneg : 0 <= st_token_in t;
     sf_pao_nonneg : 0 <= st_pool_out t;
@@ -173,7 +174,7 @@ Section P.
     pose proof (side_price_wf ps il Hps) as Hpin. pose proof (side_price_wf ps (negb il) Hps) as Hpout.
     rinv H. clear E E0 E1 E2 E3 E4 E5.
     destruct x6 as [impv bc]. destruct x7 as [after fs]. cbn [fst snd] in *.
-    app apply_fees_ok E7. destruct E7 as (Fsum & Faft & Fpool & Raft & Rpool).
+    app apply_fees_ok E7. destruct E7 as (Fsum & Faft & Fpool & Raft & Rpool & Rrecv). unfold MarketProofs.in_range in Rrecv.
     app to_sig_ok E8. destruct E8 as [-> _].
     app pool_apply_one E9. destruct E9 as (C1 & C2 & C3).
     destruct x10 as [[[[[tin out] pao] pia] cin] ip].
@@ -224,5 +225,58 @@ Section P.
     assert (0 <= out) by (destruct (Z_lt_le_dec 0 impv) as [P|P]; [destruct (A10 P)|destruct (A11 P)]; lia).
     constructor; cbn [sr_out sr_impact_value sr_impact_amount sr_fees st_after_fees st_token_in st_capped_in st_pool_out];
       try assumption; try lia.
+  Qed.
+
+  (* the fee and impact computations behind a successful swap *)
+  Lemma swap_exec_trace_parts s il amount ps s' r t :
+    swap_exec_trace w unit cfg s il amount ps = Ok (s', r, t) ->
+    exists d bc,
+      swap_impact_value w unit cfg s d true = Ok (sr_impact_value r, bc) /\
+      apply_fees w unit (c_swap_fee cfg) bc amount = Some (st_after_fees t, sr_fees r).
+  Proof.
+    intros H. unfold swap_exec_trace in H. rinv H.
+    repeat match goal with x : (_ * _)%type |- _ => destruct x end.
+    cbn [fst snd] in *. rinv H.
+    repeat match goal with x : (_ * _)%type |- _ => destruct x end.
+    cbn [fst snd] in *. injection H as <- <- <-. cbn.
+    match goal with
+    | H1 : swap_impact_value _ _ _ _ ?d _ = Ok (_, ?bc), H2 : apply_fees _ _ _ _ _ = Some _ |- _ =>
+        exists d, bc; split; assumption
+    end.
+  Qed.
+
+  (* impact factors both zero: the price impact value is zero *)
+  Lemma apply_factors_e_zero v e x : apply_factors_e w unit v 0 e = Ok x -> x = 0.
+  Proof.
+    unfold apply_factors_e, apply_factors. destruct (apply_exponent_factor w unit v e) as [y|]; cbn; [|discriminate].
+    unfold fmul, mul_div. destruct (unit =? 0); cbn; [discriminate|].
+    rewrite Z.mul_0_r, Z.div_0_l by lia. unfold chk_u. destruct (in_u w 0); cbn; [|discriminate]. congruence.
+  Qed.
+
+  Lemma price_impact_zero_factors ip d v bc : ip_positive ip = 0 -> ip_negative ip = 0 ->
+    price_impact w unit ip d = Ok (v, bc) -> v = 0.
+  Proof.
+    intros Hp Hn H. unfold price_impact in H. rinv H. injection H as <- _.
+    assert (Hadj : adjusted_factors ip = (0, 0)) by (unfold adjusted_factors; rewrite Hp, Hn; reflexivity).
+    assert (Hsd : forall hp y, signed_delta w hp 0 0 = Ok y -> y = 0).
+    { intros hp y Hy. unfold signed_delta in Hy. rinv Hy; app to_sig_ok E0; destruct E0 as [-> _]; cbn in *.
+      - congruence.
+      - apply sneg_some in Hy. lia. }
+    destruct (pd_same_side d).
+    - unfold impact_same_side in E. rewrite Hadj in E. cbn [fst snd] in E.
+      replace (if pd_next d <? pd_initial d then 0 else 0) with 0 in E by (destruct (pd_next d <? pd_initial d); reflexivity).
+      rinv E. apply apply_factors_e_zero in E0. apply apply_factors_e_zero in E1. subst. eapply Hsd; eassumption.
+    - unfold impact_cross_over in E. rewrite Hadj in E. cbn [fst snd] in E.
+      rinv E. apply apply_factors_e_zero in E0. apply apply_factors_e_zero in E1. subst. eapply Hsd; eassumption.
+  Qed.
+
+  Lemma swap_impact_value_zero_factors s d vi v bc :
+    ip_positive (c_swap_impact cfg) = 0 -> ip_negative (c_swap_impact cfg) = 0 ->
+    swap_impact_value w unit cfg s d vi = Ok (v, bc) -> v = 0.
+  Proof.
+    intros Hp Hn H. unfold swap_impact_value in H.
+    destruct (price_impact w unit (c_swap_impact cfg) d) as [[v0 b0]|] eqn:E; cbn [rbind] in H; [|discriminate].
+    apply (price_impact_zero_factors _ _ _ _ Hp Hn) in E. subst v0. cbn [fst] in H.
+    replace (0 <? 0) with false in H by reflexivity. cbn in H. injection H as <- _. reflexivity.
   Qed.
 End P.
